@@ -310,6 +310,33 @@ def run(ctx):
     r5 = ctx.rule('C07.R5', 'image coercion tables are mutually inverse and agree with the size table', floor=12, floor_what='type rows')
     _coercion_tables(ctx, r5)
 
+    # ------------------------------------------------------------------ R6 located arrays
+    r6 = ctx.rule('C07.R6', 'the byte offset of a located-array element depends on strides and position only, never on the declared index bounds', floor=1)
+    from ..dep import deps
+    wa = [k for k in fx.fns if re.search(r'harness::io::collect_io_bindings::walk_array$', k)]
+    if not wa:
+        r6.bad('anchor-missing|walk_array', 'the located-array walk (collect_io_bindings::walk_array) was not found')
+    else:
+        rec = fx.fns[wa[0]]
+        fn = F(rec)
+        r6.saw(len(fn.g))
+        ptys = [rec['locals'][i] for i in range(1, rec['argc'] + 1)]
+        dims = [i + 1 for i, t in enumerate(ptys) if re.search(r'\[\(i64, i64\)\]', t)]
+        offs = [i + 1 for i, t in enumerate(ptys) if t == 'u64']
+        selfcalls = [(b, t) for b, nm, t in fn.calls(lambda n: n == wa[0])]
+        leaf = [(b, t) for b, nm, t in fn.calls(lambda n: n.endswith('harness::io::collect_io_bindings'))]
+        if len(dims) != 1 or len(offs) != 1 or not selfcalls:
+            r6.bad('shape|walk_array', 'walk_array no longer has one bounds parameter, one byte-offset parameter and a recursive call (found %d/%d/%d): rule needs review' % (len(dims), len(offs), len(selfcalls)), loc=fn.loc(0))
+        else:
+            for b, t in selfcalls:
+                d = deps(fn, t['a'][offs[0] - 1])
+                if dims[0] in d.args:
+                    r6.bad('offset-independent-of-bounds', 'the byte offset passed down for an array element data-depends on the declared index bounds (parameter %d): for an array whose lower bound is not 0 every element is bound `lower * element size` bytes too far, outside the array\'s addressed span' % dims[0], loc=fn.loc(b))
+                elif offs[0] in d.args:
+                    r6.ok('offset-independent-of-bounds', loc=fn.loc(b), detail='depends on parameters %s' % sorted(d.args))
+                else:
+                    r6.bad('offset-independent-of-bounds', 'the byte offset passed down for an array element no longer accumulates the enclosing offset', loc=fn.loc(b))
+
 
 def _type_rows(fx, fid, inner_is_value=True):
     """{TYPE: set(of (pattern value variants), (constructed value variants))} from a match on TypeId consts with nested value matches"""
